@@ -30,10 +30,8 @@ CHECKS = {
 }
 
 KINDS = ["objects"] * 5 + ["versions"] * 2 + ["uploads"] * 2 + ["parts"]
-APIS = {"objects": ["store", "v1", "v2"], "versions": ["store", "http", "v2"], "uploads": ["store", "http"],
+APIS = {"objects": ["store", "v1", "v2", "v2s"], "versions": ["store", "http", "v2"], "uploads": ["store", "http"],
         "parts": ["store", "http"]}
-DUMMY_MC = {"MCSyms": "{5}", "MCKeyLen": "1", "MCKeys": "0", "MCPrefixLen": "0", "MCMax": "1", "MCDelimSyms": "{}",
-            "MCProgLen": "0", "MCKinds": "{}"}
 
 
 def _validate(ctx, trace_file, devs, tag):
@@ -53,7 +51,7 @@ def run(ctx):
     rng = random.Random(ctx.seed * 7919 + (0 if ctx.quick() else 1))
     # 1. design-level MC: PagingComplete on the intended design, every API, bounded universe
     mc_bounds = ctx.pick(
-        {"MCSyms": "{2, 5}", "MCKeyLen": "2", "MCKeys": "2", "MCPrefixLen": "1", "MCMax": "3", "MCDelimSyms": "{2, 5}",
+        {"MCSyms": "{2, 5}", "MCKeyLen": "2", "MCKeys": "2", "MCPrefixLen": "1", "MCMax": "2", "MCDelimSyms": "{2, 5}",
          "MCProgLen": "3", "MCKinds": '{"objects", "versions", "uploads", "parts"}'},
         {"MCSyms": "{2, 5}", "MCKeyLen": "3", "MCKeys": "3", "MCPrefixLen": "2", "MCMax": "3", "MCDelimSyms": "{2, 5}",
          "MCProgLen": "4", "MCKinds": '{"objects", "versions", "parts"}'})
@@ -208,7 +206,9 @@ def run(ctx):
     ctx.assumptions += [
         "symbols 1..6 are concretised as % / A _ a e-acute by harness/cmd/listing; delimiters are single characters",
         "storage.ListBucketResult has no next marker: at the storage API the driver continues after the greatest of last "
-        "key / last common prefix (ClientNext in Listing.tla); v1 falls back to the last key when NextMarker is absent",
+        "key / last common prefix (ClientNext in Listing.tla); because that rule is the driver's own, storage-level "
+        "ListObjects runs WITH a delimiter are checked for conformance only (PropertyApplies), C06 is evaluated on them "
+        "only without delimiter; v1 falls back to the last key when NextMarker is absent",
         "the authorizer allows every entry, so the handlers' per-entry filtering is the identity",
         "version and upload ids are compared as creation ordinals (ULID order = creation order in one process)",
     ]
